@@ -1,6 +1,7 @@
 """C01: A* returns the highest-scoring derivation; priorities of popped items never increase.
 Bounded exhaustive exploration of score matrices x grammars x configurations through the real parsing.h
 (native driver) and through the full stack (depccg.parsing.run -> parsing.pyx -> parsing.h)."""
+import math
 import time, itertools, os
 import numpy as np
 
@@ -197,6 +198,27 @@ def cut_points(st, gi, n, X, cfg):
 
 
 # ---------------------------------------------------------------- shards
+def rows_within(N, alts, d):
+    return sum(math.comb(N, k) * alts ** k for k in range(d + 1))
+
+
+_ND = {}
+WORK = 2 * 10 ** 8      # matrices x derivations per block of the thorough tier (the oracle scores every derivation for every matrix)
+
+
+def deepest(N, alts, budget, lo=1, hi=4, gi=None, n=None):
+    """the largest deviation bound whose complete set of matrices stays within the row budget (and within WORK oracle evaluations);
+    None if even the bound lo does not fit"""
+    nd = max(1, len(Space.get(gi, n)[1])) if gi is not None else 1
+    fits = lambda d: rows_within(N, alts, d) <= budget and rows_within(N, alts, d) * nd <= WORK
+    if not fits(lo):
+        return None
+    d = lo
+    while d < hi and fits(d + 1):
+        d += 1
+    return d
+
+
 def plan(tier):
     """list of shard descriptors; every one is a completely enumerated block"""
     G = grammars()
@@ -220,19 +242,48 @@ def plan(tier):
                             shards.append(('product', gi, n, vals, lo, min(total, lo + BLOCK), cfg))
                         continue
                 d = 2 if N <= 40 else 1
-                if tier == 'thorough' and N <= 30:
-                    d = 3
+                if tier == 'thorough':
+                    d = deepest(N, 3, 1500000, lo=d, gi=gi, n=n) or d
                 for base in (0.0, -1.0):
                     shards.append(('dev', gi, n, V4, base, d, cfg))
         # n = 4 deviation-bounded (synthetic only in quick)
         if not real or tier == 'thorough':
             N = S.n_entries(4, T)
             d = 2 if (N <= 24 or tier == 'thorough') and N <= 40 else 1
+            if tier == 'thorough':
+                d = deepest(N, 3, 1000000 if not real else 300000, lo=d, gi=gi, n=4) or d
             for base in (0.0, -1.0):
                 shards.append(('dev', gi, 4, V4, base, d, dict(unary_penalty=0.5)))
-        if tier == 'thorough' and not real and T == 1:
-            shards.append(('dev', gi, 5, V4, 0.0, 2, dict(unary_penalty=0.5)))
-            shards.append(('dev', gi, 5, V4, -1.0, 2, dict(unary_penalty=0.5)))
+        if tier == 'thorough' and not real:
+            for n in (5, 6) if T <= 2 else (5,):
+                N = S.n_entries(n, T)
+                d = deepest(N, 3, 400000 if n == 5 else 150000, gi=gi, n=n)
+                for base in (0.0, -1.0) if d else ():
+                    shards.append(('dev', gi, n, V4, base, d, dict(unary_penalty=0.5)))
+        # graded baselines (all entries differ, so the agenda order is decided by scores and not by ties)
+        for base in ('g1', 'g2'):
+            for n in (2, 3, 4) + ((5, 6) if tier == 'thorough' and not real and T == 1 else ()):
+                if real and n == 4 and tier == 'quick':
+                    continue
+                N = S.n_entries(n, T)
+                d = 2 if N <= 16 else 1
+                if tier == 'thorough':
+                    d = deepest(N, 3, 600000 if n <= 4 else 150000, lo=d, gi=gi, n=n) or (d if n <= 4 else None)
+                if d:
+                    shards.append(('dev', gi, n, V4, base, d, dict(unary_penalty=0.5)))
+        # long sentences (5..10 words) for the grammars whose derivation spaces stay small enough for the oracle
+        if not real and T <= 2:
+            cap = 1200 if tier == 'quick' else 12000
+            for n in range(5, 11):
+                if (gi, n) not in _ND:
+                    _ND[(gi, n)] = len(Space.get(gi, n)[1]) if _ND.get((gi, n - 1), 1) <= 12000 else 10 ** 9
+                nd = _ND[(gi, n)]
+                if nd == 0 or nd > cap:
+                    break
+                N = S.n_entries(n, T)
+                for base in (-1.0, 'g1', 'g2'):
+                    d = 1 if tier == 'quick' else (deepest(N, 3, 200000, gi=gi, n=n) or 1)
+                    shards.append(('dev', gi, n, V4, base, d, dict(unary_penalty=0.5)))
         # the default unary penalty 0.1 is not representable: one tolerance-judged family per grammar with unary rules
         if any(g.unary(c) for c in g.tags) and not real:
             for n in (1, 2, 3):
@@ -246,12 +297,47 @@ def plan(tier):
         shards.append(('full', gi, 3 if not real else 2, V4, -1.0, 1, dict(unary_penalty=0.5)))
         shards.append(('full', gi, 1, V4, 0.0, 2, dict(unary_penalty=0.5)))
         shards.append(('cut', gi, 3 if not real else 2, V4, -1.0, 1, dict(unary_penalty=0.5)))
-    # empty root set
+    from mc.props import c03, c04
+    for lang, mod in (('en', c03), ('ja', c04)):
+        ncv = sum(1 for _ in mod.converse_cases(tier))
+        for lo in range(0, ncv, 2000):
+            shards.append(('uniform', lang, tier, lo, min(ncv, lo + 2000)))
     return shards
+
+
+def head_uniformity(st, lang, tier, lo, hi):
+    """the premise of the statement: every result of the shipped rule functions has the language's head direction (English left, Japanese
+    right). Judged on one instance of every schema the rule functions implement (the converse families of C03/C04, which reach the
+    generalised rules with 3- and 4-argument functors) and on the pairs of the shipped seen-rule tables."""
+    import itertools
+    from mc import data, cats as K
+    from mc.props import c03, c04
+    mod = c03 if lang == 'en' else c04
+    want = lang == 'en'
+    rows = [(x, y) for x, y, *_ in itertools.islice(mod.converse_cases(tier), lo, hi)]
+    if lo == 0:
+        seen = sorted(data.seen_rules(lang), key=lambda p: (str(p[0]), str(p[1])))
+        rows += seen if tier == 'thorough' else seen[::3]
+    for x, y in rows:
+        st.count('head_uniformity_pairs')
+        try:
+            rs = mod.apply(x, y)
+        except Exception:
+            continue        # totality is C14's business
+        for r in rs:
+            st.count('executions')
+            st.add('head_symbols_' + lang, r.op_symbol)
+            if r.head_is_left != want:
+                st.violation(f'head_uniformity/{lang}/{r.op_symbol}', f'{lang} grammar: {x}  {y}  =>  {r.cat} [{r.op_symbol}] has head_is_left={r.head_is_left}; the '
+                             f'search keeps one item per (span, category), which is only sound when every rule of the grammar has the same head direction',
+                             engine='head_uniformity', lang=lang, x=str(x), y=str(y), symbol=r.op_symbol)
 
 
 def run_shard(sh):
     st = core.Stats()
+    if sh[0] == 'uniform':
+        head_uniformity(st, *sh[1:])
+        return st
     kind, gi, n = sh[0], sh[1], sh[2]
     g = grammars()[gi]
     T = len(g.tags)
@@ -296,6 +382,14 @@ def check(tier, seed):
 
 def replay(rec):
     boot.load_parsing()
+    if rec.get('engine') == 'head_uniformity':
+        from mc import cats as K
+        from mc.props import c03, c04
+        mod = c03 if rec['lang'] == 'en' else c04
+        bad = [r for r in mod.apply(K.P(rec['x']), K.P(rec['y'])) if r.head_is_left != (rec['lang'] == 'en')]
+        for r in bad:
+            print('REPRODUCED', rec['x'], rec['y'], '=>', r.cat, r.op_symbol, 'head_is_left =', r.head_is_left)
+        return 1 if bad else 0
     gi = [g.name for g in grammars()].index(rec['grammar'])
     X = np.asarray([rec['x']], dtype=np.float32)
     st = core.Stats()
